@@ -15,6 +15,7 @@ from __future__ import annotations
 import ast
 
 from .bits import AV, Sym, pow2_exp
+from .poly import Poly, Wrapped, to_poly
 from .fold import (ClassRef, ExtRef, Folder, FuncRef, Unfoldable, _BINOPS, _BUILTINS,
                    _CMPOPS, _UNOPS)
 from .model import AnalysisError, ClassInfo, Module, Unsupported, unparse
@@ -448,9 +449,19 @@ class AbsInt:
                 k = k.const
             if isinstance(k, AList) and not k.has_var() and all(_is_concrete(x) for x in k.items):
                 k = tuple(k.items)
-            if not _is_concrete(k):
+            if not _is_concrete(k) and not isinstance(k, Poly):
                 raise Unsupported(f'sort key {k!r} is not a constant (line {getattr(node, "lineno", "?")})')
             keys.append(k)
+        if any(isinstance(k, Poly) for k in keys):
+            import functools
+
+            def cmp(i, j):
+                d = to_poly(keys[i]).sub(to_poly(keys[j])).sign()
+                if d is None:
+                    raise Unsupported('order of symbolic sort keys is undecided')
+                return d
+            order = sorted(range(len(items)), key=functools.cmp_to_key(cmp), reverse=rev)
+            return [items[i] for i in order]
         try:
             order = sorted(range(len(items)), key=lambda i: keys[i], reverse=rev)
         except TypeError:
@@ -603,6 +614,36 @@ class AbsInt:
         return self.binop(e.op, self.ev(e.left, env, m), self.ev(e.right, env, m), e)
 
     def binop(self, op, a, b, node):
+        # a pure unsigned symbol combined with a float or a polynomial: continue in the polynomial domain
+        if (isinstance(a, AV) and (isinstance(b, (float, Poly)))) or (isinstance(b, AV) and isinstance(a, (float, Poly))):
+            def conv(x):
+                if isinstance(x, AV) and not x.is_top and x.const == 0 and x.terms and len(x.syms()) == 1:
+                    sy = next(iter(x.syms()))
+                    if x.same(AV.of_sym(sy)):
+                        return Poly.sym(sy.name)
+                if isinstance(x, AV) and x.is_const:
+                    return x.const
+                return x
+            a, b = conv(a), conv(b)
+            if isinstance(a, float) and not isinstance(b, (Poly, AV)):
+                pass
+            elif isinstance(a, float) and isinstance(b, Poly) or isinstance(b, float) and isinstance(a, Poly):
+                pass
+        if isinstance(a, Poly) or isinstance(b, Poly):
+            pa = to_poly(a.const if isinstance(a, AV) and a.is_const else a)
+            pb = to_poly(b.const if isinstance(b, AV) and b.is_const else b)
+            if pa is None or pb is None:
+                return Opaque('arithmetic of a polynomial with a non-number')
+            if isinstance(op, ast.Add):
+                return pa.add(pb)
+            if isinstance(op, ast.Sub):
+                return pa.sub(pb)
+            if isinstance(op, ast.Mult):
+                return pa.mul(pb)
+            if isinstance(op, ast.Div):
+                r = pa.div(pb)
+                return r if r is not None else Opaque('division by a sum')
+            return Opaque(f'{type(op).__name__} on a polynomial')
         if isinstance(a, Opaque) or isinstance(b, Opaque):
             if isinstance(op, ast.Mod) and isinstance(a, str):
                 return Opaque('str')
@@ -700,6 +741,18 @@ class AbsInt:
         return True
 
     def compare(self, op, a, b, node):
+        if isinstance(a, Poly) or isinstance(b, Poly):
+            pa, pb = to_poly(a), to_poly(b)
+            if pa is None or pb is None:
+                if isinstance(op, (ast.Eq, ast.Is)) and (a is None or b is None):
+                    return False
+                if isinstance(op, (ast.NotEq, ast.IsNot)) and (a is None or b is None):
+                    return True
+                return None
+            sg = pa.sub(pb).sign()
+            if sg is None:
+                return None
+            return _cmp_interval(op, sg, sg)
         if _is_concrete(a) and _is_concrete(b):
             try:
                 return bool(_CMPOPS[type(op)](a, b))
@@ -822,6 +875,10 @@ class AbsInt:
                 return True
             if not v.vars:
                 return False
+        if isinstance(v, Poly):
+            sg = v.sign()
+            if sg is not None:
+                return sg != 0
         return self.decide(node, f'truth of {v!r}')
 
     def _v_Subscript(self, e, env, m):
@@ -1146,6 +1203,15 @@ class AbsInt:
             return args[0]
         if isinstance(f, tuple) and f and f[0] == 'lambda':
             return self.call_lambda(f, list(args))
+        if f in (round, int, float, abs) and len(args) == 1 and isinstance(args[0], (Poly, Wrapped)):
+            if f is float or (f is abs and isinstance(args[0], Poly) and args[0].sign() in (0, 1)):
+                return args[0]
+            return Wrapped(f.__name__, args[0])
+        if f is sum and args and isinstance(args[0], (AList, list)) and not _is_concrete(args[0]):
+            tot = args[1] if len(args) > 1 else 0
+            for it in self.iterate(args[0], node):
+                tot = self.binop(ast.Add(), tot, it, node)
+            return tot
         if f is sorted and args and isinstance(args[0], (AList, list, tuple)) and not _is_concrete(args[0]):
             src = args[0].items if isinstance(args[0], AList) else list(args[0])
             return AList(self.sort_items(list(src), kwargs, node), 'list')
@@ -1192,6 +1258,9 @@ class AbsInt:
         if isinstance(t, ClassRef) and not isinstance(v, (AObj, Opaque)):
             # a plain value is never an instance of a class of the program
             return False
+        if isinstance(v, Poly):
+            names = unparse(node.args[1])
+            return 'Real' in names or 'float' in names or 'Number' in names
         if hasattr(v, 'py_type'):
             names = unparse(node.args[1])
             return v.py_type in names
